@@ -130,6 +130,37 @@ func checkC10(c *core.Ctx) error {
 			scs = append(scs, g, l, t)
 		}
 	}
+	// (D) renames that are only decided in a LATER pass: a call whose argument is the result of another derive
+	// call is typed after the first generation pass and the reload; it then clashes with an earlier call
+	for layout := 0; layout < 4; layout++ {
+		for kind := 0; kind < 3; kind++ {
+			sc := &Scenario{ID: fmt.Sprintf("c10d-%d-%d", kind, layout), Files: map[string]string{"go.mod": "module m\n\ngo 1.24\n"}, PkgDir: "p",
+				Note: fmt.Sprintf(" late-rename kind=%d layout=%d", kind, layout)}
+			sc.Files["p/types.go"] = "package p\n\n// S1 is a struct.\ntype S1 struct {\n\tA int // field comment\n\tN *S1\n}\n"
+			doc, eol, tail := "", "", ""
+			if layout&1 != 0 {
+				doc, eol = "// late compares the keys of m with ks.\n", " // typed only after the first pass"
+			}
+			if layout&2 != 0 {
+				tail = "\n// trailing comment after the last declaration"
+			}
+			var body string
+			switch kind {
+			case 0: // -autoname: the same name for two argument type lists, one of them known late
+				sc.Flags, sc.Autoname = []string{"-autoname"}, true
+				body = "\tgot := deriveKeys(m)" + eol + "\n\treturn deriveEqual(got, ks) && deriveEqual(a, b)\n"
+			case 1: // -dedup: two names for one argument type list, one of them known late
+				sc.Flags, sc.Dedup = []string{"-dedup"}, true
+				body = "\tgot := deriveKeys(m)" + eol + "\n\treturn deriveEqualLate(got, ks) && deriveEqualB(ks, ks) && deriveEqual(a, b)\n"
+			case 2: // both flags
+				sc.Flags, sc.Autoname, sc.Dedup = []string{"-autoname", "-dedup"}, true, true
+				body = "\tgot := deriveKeys(m)" + eol + "\n\treturn deriveEqual(got, ks) && deriveEqualB(ks, ks) && deriveEqual(a, b)\n"
+			}
+			sc.Files["p/f1.go"] = "package p\n\n" + doc + "func late(m map[string]int, ks []string, a, b *S1) bool {\n" + body + "}\n\n// other is untouched.\nfunc other() int { return 1 } // eol comment" + tail + "\n"
+			sc.Files["p/f2.go"] = "package p\n\n// f2 has no derive call.\nfunc  f2( ) int{ return 2 }\n"
+			scs = append(scs, sc)
+		}
+	}
 	outs, err := RunAll(c, bin, scs, RunOpts{Post: false, FileObs: true})
 	if err != nil {
 		return err
